@@ -370,3 +370,116 @@ def _c09_replay(prop, path):
 
 TABLE["C09"] = dict(run=_c09, replay=_c09_replay)
 TABLE["C10"] = dict(run=_c10, replay=_c10_replay)
+
+
+# ------------------------------------------------------------------------------------------
+HIST_DIMS_QUICK = ["qsig", "bind", "qeSigner", "leafRole", "leafPki", "pool", "tcbSigner", "qeSignerDoc", "tcbExtra", "tcbContent", "modBranch", "qeContent",
+                   "pckCrlRev", "rootCrlRev", "pckCrlSigner", "time"]
+
+
+def _hist_cfg(tier):
+    dims = "DimNames" if tier == "thorough" else "{" + ", ".join('"%s"' % d for d in HIST_DIMS_QUICK) + "}"
+    if tier == "thorough":
+        return ('CONSTANTS\n  K = 0\n  Focus = {}\n  OptSet = "levels"\n  NowVals = {"set"}\n  HistDims <- DimNames\n'
+                "SPECIFICATION HSpec\nINVARIANTS StoreIsCurrent HistoryFree ExportCase\nCHECK_DEADLOCK FALSE\n")
+    return ('CONSTANTS\n  K = 0\n  Focus = {}\n  OptSet = "levels"\n  NowVals = {"set"}\n  HistDims = %s\n'
+            "SPECIFICATION HSpec\nINVARIANTS StoreIsCurrent HistoryFree ExportCase\nCHECK_DEADLOCK FALSE\n" % dims)
+
+
+HIST_TRACE_CONSTS = '  K = 0\n  Focus = {}\n  OptSet = "levels"\n  NowVals = {"set"}\n  Prop = "HIST"\n'
+
+
+def _key_hist(call, evs):
+    i = call.get("input") or {}
+    f = i.get("fault", {})
+    b = verifyfam.baseline()
+    dev = ",".join("%s=%s" % (d, f[d]) for d in sorted(f) if b.get(d) != f[d]) or "baseline"
+    steps = ">".join("%s@%d%d" % (s["wid"], int(s["gc"]), int(s["cr"])) for s in i.get("hist", []))
+    return "history:%s|%s|shared=%s" % (dev, steps, int(bool(i.get("shared"))))
+
+
+def _hist_run(prop, tier):
+    return smallfam.run(prop, tier, part=True, mc_module="VerifyHistory_MC", mc_cfg=_hist_cfg(tier), driver="history", trace_module="TdxVerify_Judge", trace_spec="JSpec",
+                        trace_consts=HIST_TRACE_CONSTS, key_fn=_key_hist, required_actions=("Call",), max_events=24000,
+                        assumptions=["worlds of one history share a seed: named keys and deterministic signatures coincide, so a cache or left-over state keyed on shared material would be hit"],
+                        rule="every history (first call on the honest twin or on another honest platform, second call on any of the three worlds, all option levels, shared or fresh Options) is run in one process; every call is judged by the single-call properties")
+
+
+def _c12(prop, tier):
+    t0 = _time.time()
+    _, v1, c1 = verifyfam.run(prop, tier, part=True)
+    _, v2, c2 = _hist_run(prop, tier)
+    return smallfam.combine(prop, tier, [("options-and-gating", v1, c1), ("histories", v2, c2)], t0)
+
+
+def _c12_replay(prop, path):
+    rp = _json.load(open(path))
+    if "hist" in (rp.get("case") or {}):
+        return smallfam.replay(prop, path, driver="history", trace_module="TdxVerify_Judge", trace_spec="JSpec", trace_consts=HIST_TRACE_CONSTS)
+    return verifyfam.replay(prop, path)
+
+
+TABLE["C12"] = dict(run=_c12, replay=_c12_replay)
+
+# ------------------------------------------------------------------------------------------
+def _tcbl_cfg(tier):
+    if tier == "thorough":
+        c = '  MaxPlat = 2\n  PlatStatuses = {"UpToDate", "OutOfDate"}\n  MaxQe = 3\n'
+    else:
+        c = '  MaxPlat = 1\n  PlatStatuses = {"UpToDate", "OutOfDate"}\n  MaxQe = 2\n'
+    return "CONSTANTS\n" + c + "SPECIFICATION Spec\nINVARIANTS TypeOK LoopIsFirstMatch OnlyUpToDatePasses ExportCase\nCHECK_DEADLOCK FALSE\n"
+
+
+TCBL_TRACE_CONSTS = '  MaxPlat = 1\n  PlatStatuses = {"UpToDate"}\n  MaxQe = 1\n'
+
+
+def _key_tcbl(call, evs):
+    i = call["input"]
+    if i["kind"] == "qe":
+        return "qe:" + ",".join("%s/%s" % (x["rel"], x["st"]) for x in i["qe"])
+    return "tcb:svn1=%s:plat=%s:mod=%s[%s]" % (i["svn1"], ";".join("%s/%s/%s/%s" % (x["sgx"], x["pce"], x["tdx"], x["st"]) for x in i["plat"]),
+                                              i["mod"]["id"], ",".join("%s/%s" % (x["rel"], x["st"]) for x in i["mod"]["lv"]))
+
+
+def _tcbl_run(prop, tier, kind):
+    def pick(cases, t):
+        out = [c for c in cases if c["kind"] == kind]
+        if t == "quick" and kind == "tcb" and len(out) > 12000:
+            # quick: the <= 1-level slice is complete; of larger lists a seeded sample
+            import random
+            rnd = random.Random(C.seed())
+            small = [c for c in out if len(c["plat"]) <= 1]
+            big = [c for c in out if len(c["plat"]) > 1]
+            out = small + rnd.sample(big, min(len(big), 4000))
+        return out
+    return smallfam.run(prop, tier, part=True, mc_module="TcbLevels_MC", mc_cfg=_tcbl_cfg(tier), driver="tcblevels", trace_module="TcbLevels_Trace",
+                        trace_consts=TCBL_TRACE_CONSTS, key_fn=_key_tcbl, case_fn=pick, mc_workers=1,
+                        required_actions=("ScanPlat", "ScanModule", "CombineStatus", "ScanQe"),
+                        assumptions=["each comparison of the selection is reduced to pass / fail at a boundary index; concrete SVN vectors are seeded random around the boundary",
+                                     "TCB Info / QE identity are honestly signed by the generated TCB signer so that only the selection decides"],
+                        rule="every TcbLevels case (ordered level lists, module identities, statuses) becomes a platform + signed collateral; verify.TdxQuote's verdict and SupportedTcbLevelsFromCollateral's result must be the declarative first-match outcome")
+
+
+def _c04(prop, tier):
+    t0 = _time.time()
+    _, v1, c1 = verifyfam.run(prop, tier, part=True)
+    _, v2, c2 = _tcbl_run(prop, tier, "tcb")
+    return smallfam.combine(prop, tier, [("worlds", v1, c1), ("level-selection", v2, c2)], t0)
+
+
+def _c07(prop, tier):
+    t0 = _time.time()
+    _, v1, c1 = verifyfam.run(prop, tier, part=True)
+    _, v2, c2 = _tcbl_run(prop, tier, "qe")
+    return smallfam.combine(prop, tier, [("worlds", v1, c1), ("level-selection", v2, c2)], t0)
+
+
+def _c0407_replay(prop, path):
+    rp = _json.load(open(path))
+    if "kind" in (rp.get("case") or {}):
+        return smallfam.replay(prop, path, driver="tcblevels", trace_module="TcbLevels_Trace", trace_consts=TCBL_TRACE_CONSTS)
+    return verifyfam.replay(prop, path)
+
+
+TABLE["C04"] = dict(run=_c04, replay=_c0407_replay)
+TABLE["C07"] = dict(run=_c07, replay=_c0407_replay)
